@@ -5,7 +5,7 @@ CONSTANTS
   Kind = "pais"
   Atoms <- AtomsListS
   Prefix <- PfxNone
-  MaxLen = 7
+  MaxLen = 8
   Cfgs <- CfgsPAIs
   Junk = 34
   EmitOn = TRUE
